@@ -59,6 +59,13 @@ func (w *jsonWorld) compare(e *drv.Srv, name, counter, keySuffix string, ordered
 			return
 		}
 	}
+	if !ordered && missing > 0 {
+		if logHas(w.a.Srv, "Failed to send request to server", "unable to send http request") == "" {
+			w.r.Violationf("fan-out-loses-authorizations", map[string]interface{}{"server": name, "missing": missing, "submitted": len(w.want)},
+				"server %s lacks %d of the %d authorizations server A accepted, although A logged no failed send and the peer logged no refusal", name, missing, len(w.want))
+			return
+		}
+	}
 	if len(got) != len(w.want)-missing {
 		w.r.Violationf("json-transport:unexpected-authorizations"+keySuffix, map[string]interface{}{"server": name}, "server %s lists %d authorizations, %d were submitted", name, len(got), len(w.want))
 	}
